@@ -451,10 +451,20 @@ def replay(prop, path):
     ctx.evaluate(mod.run_case, rec['case'])
     res = ctx.result()
     if res['violations']:
+        open_keys = {(k['property'], k['key']): k for k in load_known() if k.get('status') == 'open'}
+        classify = getattr(mod, 'classify', lambda v: v['key'])
+        unknown = 0
         for v in res['violations']:
             print('REPLAYED violation key=%s kind=%s\n%s\nwitness=%s' % (v['key'], v['kind'], v['msg'], dumps(v['witness'])[:3000]))
-        print('VIOLATION property=%s replay=%s' % (prop, path))
-        return 1
+            k = open_keys.get((prop, classify(v)))
+            if k:
+                print('KNOWN-FINDING: property=%s %s [%s]' % (prop, k.get('what', ''), classify(v)))
+            else:
+                unknown += 1
+        if unknown:
+            print('VIOLATION property=%s replay=%s' % (prop, path))
+            return 1
+        return 0
     if res['n_harness_errors']:
         print('HARNESS-ERROR\n' + res['harness_errors'][0])
         return 2
